@@ -317,6 +317,15 @@ HOSTILE_STRINGS = ["it's", "a b", "a_b", "a-b", "\u00e9", "\u65e5\u672c", "semi;
                    "x" * 30, "*/ end", "<!--", "a'b'c", "#hash", "per%cent", "q?x=1&y=2", "new line n", "\u2028sep"]
 HOSTILE_DESCS = ["plain description", "ends comment */ here", "/* opens", "back`tick", "${interp}", 'has "quotes"',
                  "line one\nline two", "unicode \u2028 sep", "trailing backslash \\", "it's"]
+# C12 argument hazard pools (iso string literals are raw: no quote, backslash, backtick or line break inside)
+ARG_HAZARD_STRINGS = ["a b", "a_b", "a-b", "a.b", "a/b", "A b", "a  b", "a__b", "", " ", "_", "__", "___", "____", "a____t___s_b",
+                      "a\\nb", "a\\\\b", 'a\\"b', "\\u0041", "a\\/b", "\u00e9", "e\u0301", "\u65e5\u672c", "\u00df",
+                      "\uffff", "\u2028", "l_5", "v_vs", "s_", "o_n__l_1_c", "null", "true", "5", "-5", "n5", "it's", "$vs", "{x}", "a,b", "a:b",
+                      "q__s_x", "x_limit__l_1", "tab\there", "0", "-0", "1e3", "\u0131", "\u017f", "\u212a"]
+ARG_HAZARD_ALPHABET = ["a", "b", "A", "0", "9", "_", " ", "-", ".", "\u00e9", "\ufffd", "\ud7ff", "\uffff", "$", "'", "/", "\u0301", "\\n", "\\\\"]
+# characters outside the BMP are rejected by the iso lexer (June-2018 SourceCharacter), so they can only be fed to the
+# runtime key function directly
+ARG_HAZARD_ASTRAL = ["\U0001F600", "x\U0001F600y", "\U0001D4B3", "\U0001F468\u200D\U0001F469", "\U00010000"]
 DECL_DESCS = ["plain description", "ends comment */ here", "/* opens", "it's", "line one\n    line two", "unicode \u00e9"]
 
 
@@ -327,8 +336,20 @@ class Generator:
         self.profile = profile
         self.o = dict(hazard_strings=False, hazard_descs=False, negative_ints=True, aliases=True, loadable=True,
                       refetch=True, abstract=True, prefix_names=False, client_args=True, objects_args=True,
-                      pointers=False, updatable=False, max_types=4, max_decls=6, header_ws=False, max_depth=3)
+                      pointers=False, updatable=False, max_types=4, max_decls=6, header_ws=False, max_depth=3,
+                      # --- options added for the runtime checks (C10/C12/C25); all default to off so that the
+                      # existing profiles generate the same project for the same seed -------------------------
+                      link=False,            # select `__link`
+                      lazy_loadable=False,   # `@loadable(lazyLoadArtifact: true)` on some loadable selections
+                      exposed=False,         # Mutation type + schema-extension with @exposeField, selected imperatively
+                      mutation_entrypoints=False,  # client fields on Mutation + `entrypoint Mutation.X`
+                      var_defaults=False,    # client field variables with default values, omitted at the selection
+                      reuse=False,           # C25 workload: one hub client field with refetchable selections reused
+                      arg_hazard=0,          # C12 workload: N selections of one field with adversarial argument lists
+                      force_ids=False)       # every object type implements Node (refetch/pointers need ids)
         self.o.update(opts)
+        self.ptrs = {}      # parent type -> [pointer Decl]
+        self.exposed_on = {}  # type -> [exposed field name]
         self.p.style = {"commas": True, "multiline_args": True}
 
     # -- schema ----------------------------------------------------------
@@ -355,7 +376,7 @@ class Generator:
         inp["fields"]["flag"] = {"type": named("Boolean"), "args": {}}
         for n in objs:
             t = s.add(n, "OBJECT")
-            if r.random() < 0.7:
+            if r.random() < 0.7 or o["force_ids"]:
                 t["fields"]["id"] = {"type": nn(named("ID")), "args": {}}
                 t["interfaces"].append("Node")
         ifaces = []
@@ -393,10 +414,93 @@ class Generator:
                 t["desc"] = r.choice(HOSTILE_DESCS)
         q = s.types["Query"]
         q["fields"]["node"] = {"type": named("Node"), "args": {"id": {"type": nn(named("ID"))}}}
+        if o["reuse"]:
+            self.schema_for_reuse(objs)
+        if o["arg_hazard"]:
+            self.schema_for_arg_hazard(objs)
+        if o["exposed"] or o["mutation_entrypoints"]:
+            self.schema_mutations(objs)
         # make Query first like most schemas
         s.order.remove("Query")
         s.order.insert(0, "Query")
         return s
+
+    # -- schema additions for the runtime workloads ------------------------------------------------
+    def node_types(self, objs=None):
+        s = self.p.schema
+        return [n for n in (objs or s.order) if s.kind(n) == "OBJECT" and "Node" in s.types[n]["interfaces"]]
+
+    def schema_mutations(self, objs):
+        """`type Mutation` whose fields return payload objects that lead to Node types; with `exposed`, a
+        schema-extension file exposing them on the Node type via @exposeField (imperatively loaded fields)."""
+        r, s, o = self.rng, self.p.schema, self.o
+        targets = self.node_types(objs)
+        if not targets:
+            return
+        m = s.add("Mutation", "OBJECT")
+        ext = []
+        for i, tn in enumerate(targets[:3]):
+            low = tn.lower().rstrip("_")
+            pay = s.add(tn + "Payload", "OBJECT")
+            via_abstract = "Named" in s.types and "Named" in s.types[tn]["interfaces"] and r.random() < 0.4
+            pay["fields"]["ok"] = {"type": named("Boolean"), "args": {}}
+            if via_abstract:
+                pay["fields"]["item"] = {"type": named("Named"), "args": {}}
+                sub = f"item.as{tn}"
+            else:
+                pay["fields"]["target"] = {"type": r.choice([named(tn), nn(named(tn))]), "args": {}}
+                sub = "target"
+            inp = s.add(tn + "Input", "INPUT")
+            inp["fields"]["id"] = {"type": nn(named("ID")), "args": {}}
+            inp["fields"]["label"] = {"type": named("String"), "args": {}}
+            inp["fields"]["n"] = {"type": named("Int"), "args": {}}
+            m["fields"][f"set_{low}"] = {"type": r.choice([named(tn + "Payload"), nn(named(tn + "Payload"))]),
+                                         "args": {"id": {"type": nn(named("ID"))}, "label": {"type": named("String")}}}
+            m["fields"][f"update_{low}"] = {"type": nn(named(tn + "Payload")), "args": {"input": {"type": nn(named(tn + "Input"))}}}
+            if o["exposed"]:
+                ext.append(f'  @exposeField(field: "set_{low}.{sub}", fieldMap: [{{ from: "id", to: "id" }}])')
+                ext.append(f'  @exposeField(field: "update_{low}.{sub}", as: "update_{low}_it", fieldMap: [{{ from: "id", to: "input.id" }}])')
+                self.exposed_on.setdefault(tn, []).extend([f"set_{low}", f"update_{low}_it"])
+        if ext:
+            self.p.extension_sdl = "extend type Mutation\n" + "\n".join(ext) + "\n"
+            self.p.tags.add("exposeField")
+
+    def schema_for_reuse(self, objs):
+        """Guarantee the shapes the C25 workload needs: a Node type T (hub type) reachable from Query directly,
+        through a list, through another object type and through abstract types; T -> T edges."""
+        s = self.p.schema
+        nodes = self.node_types(objs)
+        if not nodes:
+            t = s.types[objs[0]]
+            t["fields"]["id"] = {"type": nn(named("ID")), "args": {}}
+            t["interfaces"].insert(0, "Node")
+            nodes = [objs[0]]
+        T = nodes[0]
+        U = [n for n in objs if n != T][0] if len(objs) > 1 else T
+        self.hub_type, self.mid_type = T, U
+        t, q = s.types[T], s.types["Query"]
+        t["fields"]["peer"] = {"type": named(T), "args": {"n": {"type": named("Int")}}}
+        t["fields"]["peers"] = {"type": lst(nn(named(T))), "args": {}}
+        t["fields"]["motto"] = {"type": named("String"), "args": {"q": {"type": named("String")}, "first": {"type": named("Int")}}}
+        q["fields"]["hubs"] = {"type": nn(lst(nn(named(T)))), "args": {}}
+        q["fields"]["hub"] = {"type": named(T), "args": {"id": {"type": nn(named("ID"))}}}
+        q["fields"]["mid"] = {"type": named(U), "args": {}}
+        s.types[U]["fields"]["toHub"] = {"type": named(T), "args": {"key": {"type": named("String")}}}
+        s.types[U]["fields"]["toHubs"] = {"type": lst(named(T)), "args": {}}
+        if "Named" in s.types:
+            if "Named" not in t["interfaces"]:
+                t["interfaces"].append("Named")
+                t["fields"].setdefault("label", {"type": named("String"), "args": {}})
+            q["fields"]["anyNamed"] = {"type": lst(named("Named")), "args": {}}
+
+    def schema_for_arg_hazard(self, objs):
+        s = self.p.schema
+        args = {"s": {"type": named("String")}, "t": {"type": named("String")}, "n": {"type": named("Int")},
+                "b": {"type": named("Boolean")}, "i": {"type": named("ID")}, "x": {"type": named("Float")},
+                "f": {"type": named("FilterInput")}, "c": {"type": named("Color")}, "d": {"type": named("DateTime")}}
+        s.types["Query"]["fields"]["probe"] = {"type": named("String"), "args": dict(args)}
+        s.types["Query"]["fields"]["probeObj"] = {"type": named(objs[0]), "args": dict(args)}
+        s.types[objs[0]]["fields"]["probe"] = {"type": named("Int"), "args": dict(args)}
 
     def wrap(self, t, leaf):
         r = self.rng
@@ -536,8 +640,28 @@ class Generator:
                         if required and not loadable or r.random() < 0.7:
                             cargs.append((vn, self.literal_for(vt, variables)))
                     dirs = ["loadable"] if loadable else []
+                    if loadable and o["lazy_loadable"] and r.random() < 0.4:
+                        dirs = ["loadable(lazyLoadArtifact: true)"]
                     sels.append(Sel("client", cd.name, tname, None, alias, cargs, dirs, None, cd.ident()))
                     keys.add(alias or cd.name)
+            if o["pointers"]:
+                for pd in self.ptrs.get(tname, []):
+                    if r.random() < 0.5 and pd.name not in keys and depth < o["max_depth"]:
+                        pargs = []
+                        for vn, vt, dv in pd.variables:
+                            if (not nullable(vt) and dv is None) or r.random() < 0.7:
+                                pargs.append((vn, self.literal_for(vt, variables)))
+                        sub = self.gen_selections(base(pd.target), variables, depth + 1, avail_client)
+                        sels.append(Sel("pointer", pd.name, tname, pd.target, None, pargs, [], sub, pd.ident()))
+                        keys.add(pd.name)
+            if o["exposed"]:
+                for en in self.exposed_on.get(tname, []):
+                    if r.random() < 0.3 and en not in keys:
+                        sels.append(Sel("exposed", en, tname))
+                        keys.add(en)
+            if o["link"] and r.random() < 0.2 and "__link" not in keys:
+                sels.append(Sel("link", "__link", tname))
+                keys.add("__link")
             if o["refetch"] and "id" in t["fields"] and tname != "Query" and r.random() < 0.15:
                 sels.append(Sel("refetch", "__refetch", tname))
             if r.random() < 0.1 and "__typename" not in keys:
@@ -555,6 +679,13 @@ class Generator:
         names = ["Card", "Row", "Detail", "Header", "Avatar", "Summary", "Badge", "Line"]
         if o["prefix_names"]:
             names = ["Foo", "FooBar", "Foo_", "FooBarBaz", "F", "Fo", "field", "entrypointX", "fieldFoo"]
+        if o["pointers"]:
+            for parent in objs + ["Query"]:
+                if r.random() < 0.5:
+                    pd = self.make_pointer(parent, "ptr" + str(len(p.decls)))
+                    if pd is not None:
+                        p.decls.append(pd)
+                        self.ptrs.setdefault(parent, []).append(pd)
         # leaf-most client fields first so that later ones can select them (no cycles)
         for i in range(ndecl):
             parent = r.choice(objs + ["Query"] if i >= ndecl - 2 else objs)
@@ -567,11 +698,13 @@ class Generator:
             d = Decl("field", parent, nm, variables, dirs, sels)
             if o["hazard_descs"] and r.random() < 0.3:
                 d.desc = r.choice(DECL_DESCS)
+            if o["var_defaults"]:
+                self.add_defaults(d)
             self.finish_variables(d)
             p.decls.append(d)
             avail.setdefault(parent, []).append(d)
         # entrypoints: every Query client field (at least one)
-        qfields = [d for d in p.decls if d.parent == "Query"]
+        qfields = [d for d in p.decls if d.parent == "Query" and d.kind == "field"]
         if not qfields:
             variables = []
             sels = self.gen_selections("Query", variables, 0, avail)
@@ -582,6 +715,12 @@ class Generator:
         for d in qfields:
             e = Decl("entrypoint", "Query", d.name, directives=["lazyLoad"] if r.random() < 0.1 else [])
             p.decls.append(e)
+        if o["mutation_entrypoints"] and "Mutation" in s.types:
+            self.gen_mutation_entrypoints(avail)
+        if o["reuse"]:
+            self.gen_program_reuse(avail)
+        if o["arg_hazard"]:
+            self.gen_program_arg_hazard(o["arg_hazard"])
         # files
         nfiles = r.randint(1, 4)
         fnames = ["a.ts", "sub/b.tsx", "sub/deep/c.ts", "d.js", "z/e.jsx"][:nfiles]
@@ -591,6 +730,286 @@ class Generator:
             if o["header_ws"]:
                 d.header_ws = (r.choice([" ", "  ", "\t", "\n", " \n  "]), r.choice([" ", "  ", "\n  ", "\t"]))
         return p
+
+    # -- additions for the runtime workloads ---------------------------------------------------------
+    def add_defaults(self, d):
+        r = self.rng
+        out = []
+        for n, t, dv in d.variables:
+            if dv is None and nullable(t) and list_depth(t) == 0 and base(t) in ("Int", "String", "Boolean") and r.random() < 0.4:
+                dv = {"Int": ("int", r.choice([7, -3, 0])), "String": ("str", r.choice(["dflt", "d f"])), "Boolean": ("bool", True)}[base(t)]
+                self.p.tags.add("variable-default")
+            out.append((n, t, dv))
+        d.variables = out
+
+    def make_pointer(self, parent, name):
+        """`pointer parent.name to T { path { __link } }` where the path of server fields reaches a Node object type."""
+        r, s = self.rng, self.p.schema
+        nodes = set(self.node_types())
+        variables = []
+
+        def search(tname, depth, seen):
+            fields = list(s.types[tname]["fields"].items())
+            r.shuffle(fields)
+            for fname, fd in fields:
+                b = base(fd["type"])
+                if s.is_leaf(b) or s.kind(b) == "INPUT":
+                    continue
+                is_list = list_depth(fd["type"]) > 0
+                if b in nodes and s.kind(b) == "OBJECT" and r.random() < 0.7:
+                    return [("field", fname, fd, b)], b, is_list
+                if s.is_abstract(b):
+                    poss = [c for c in s.possible_types(b) if c in nodes]
+                    if poss and r.random() < 0.7:
+                        c = r.choice(poss)
+                        return [("field", fname, fd, b), ("as", "as" + c, None, c)], c, is_list
+                if depth < 2 and s.kind(b) == "OBJECT" and b not in seen:
+                    sub = search(b, depth + 1, seen | {b})
+                    if sub is not None:
+                        return [("field", fname, fd, b)] + sub[0], sub[1], sub[2] or is_list
+            return None
+
+        if parent in ("Mutation",) or s.kind(parent) != "OBJECT":
+            return None
+        found = search(parent, 0, {parent})
+        if found is None:
+            return None
+        path, target, is_list = found
+        inner = [Sel("link", "__link", target)]
+        if r.random() < 0.3:
+            inner.append(Sel("scalar", "id", target, nn(named("ID"))))
+        cur_parent = [parent] + [x[3] for x in path[:-1]]
+        for (kind, fname, fd, b), par in reversed(list(zip(path, cur_parent))):
+            if kind == "as":
+                inner = [Sel("object", fname, par, named(b), None, [], [], inner, b)]
+            else:
+                args = self.args_for(fd.get("args", {}), variables)
+                inner = [Sel("object", fname, par, fd["type"], None, args, [], inner, b)]
+        tt = named(target)
+        if is_list:
+            tt = r.choice([nn(lst(nn(tt))), lst(tt), nn(lst(tt))])
+        elif r.random() < 0.3:
+            tt = nn(tt)
+        d = Decl("pointer", parent, name, variables, [], inner, target=tt)
+        self.p.tags.add("client-pointer")
+        return d
+
+    def gen_mutation_entrypoints(self, avail):
+        r, s, p = self.rng, self.p.schema, self.p
+        m = s.types["Mutation"]
+        fields = list(m["fields"].items())
+        r.shuffle(fields)
+        for i, (fname, fd) in enumerate(fields[:r.randint(1, 2)]):
+            variables = []
+            args = self.args_for(fd["args"], variables)
+            b = base(fd["type"])
+            sub = self.gen_selections(b, variables, 1, avail)
+            sels = [Sel("object", fname, "Mutation", fd["type"], None, args, [], sub, b)]
+            d = Decl("field", "Mutation", "Mut" + str(i), variables, ["component"] if r.random() < 0.3 else [], sels)
+            p.decls.append(d)
+            p.decls.append(Decl("entrypoint", "Mutation", d.name))
+            p.tags.add("mutation-entrypoint")
+
+    def gen_program_reuse(self, avail):
+        """One hub client field with refetchable selections (__refetch, exposed mutation fields, @loadable child,
+        client pointer) reused by several parents at different depths, under lists, asFoo refinements and client
+        pointers, and by several entrypoints (Query and Mutation)."""
+        r, s, p = self.rng, self.p.schema, self.p
+        T, U = self.hub_type, self.mid_type
+        S, I = named("String"), named("Int")
+
+        def sc(name, parent, t, args=None, alias=None):
+            return Sel("scalar", name, parent, t, alias, args or [])
+
+        def cl(decl, args=None, dirs=None, alias=None):
+            return Sel("client", decl.name, decl.parent, None, alias, args or [], dirs or [], None, decl.ident())
+
+        def ob(name, parent, t, sub, args=None, alias=None):
+            return Sel("object", name, parent, t, alias, args or [], [], sub, base(t))
+
+        def sval():
+            return r.choice([("str", r.choice(["x", "a b", "deep", "it's" if self.o["hazard_strings"] else "its"])), ("null",)])
+
+        tf = s.types[T]["fields"]
+        leaf = Decl("field", T, "HubLeaf", [("a", I, ("int", 9) if r.random() < 0.3 else None)], ["component"] if r.random() < 0.5 else [],
+                    [sc("motto", T, S, [("first", ("var", "a"))]), sc("id", T, nn(named("ID")))])
+        p.decls.append(leaf)
+        ptr_t = r.choice([named(T), nn(lst(nn(named(T)))), lst(named(T))])
+        ptr = Decl("pointer", T, "hubPtr", [], [], [ob("peers", T, tf["peers"]["type"], [Sel("link", "__link", T)])], target=ptr_t)
+        p.decls.append(ptr)
+        self.ptrs.setdefault(T, []).append(ptr)
+        refetchables = [Sel("refetch", "__refetch", T)]
+        for en in self.exposed_on.get(T, []):
+            if r.random() < 0.7:
+                refetchables.append(Sel("exposed", en, T))
+        ldir = "loadable(lazyLoadArtifact: true)" if self.o["lazy_loadable"] and r.random() < 0.3 else "loadable"
+        refetchables.append(cl(leaf, [("a", ("int", r.choice([1, -2])))] if r.random() < 0.5 else [], [ldir], alias="lazyLeaf"))
+        under_ptr = [sc("motto", T, S, [("q", ("str", "p"))]), cl(leaf, [("a", ("int", 3))])]
+        if r.random() < 0.5:
+            under_ptr.append(Sel("refetch", "__refetch", T))
+        refetchables.append(Sel("pointer", "hubPtr", T, ptr_t, None, [], [], under_ptr, ptr.ident()))
+        r.shuffle(refetchables)
+        keep = refetchables[:r.randint(2, len(refetchables))]
+        hub_sels = [sc("motto", T, S, [("q", ("var", "q"))])] + keep
+        if r.random() < 0.5:
+            hub_sels.append(cl(leaf, [("a", ("int", 2))], alias="plainLeaf"))
+        if r.random() < 0.5:
+            hub_sels.append(Sel("link", "__link", T))
+        r.shuffle(hub_sels)
+        hub = Decl("field", T, "Hub", [("q", S, None)], ["component"] if r.random() < 0.5 else [], hub_sels)
+        p.decls.append(hub)
+        peer_t, peers_t = tf["peer"]["type"], tf["peers"]["type"]
+        uf = s.types[U]["fields"]
+        mid = Decl("field", U, "Mid", [("k", S, None)], ["component"] if r.random() < 0.5 else [], [
+            ob("toHub", U, uf["toHub"]["type"], [cl(hub, [("q", ("var", "k"))]),
+                                                 ob("peer", T, peer_t, [cl(hub)], [("n", ("int", 1))])], [("key", ("var", "k"))]),
+            ob("toHubs", U, uf["toHubs"]["type"], [cl(hub, [("q", ("str", "m"))])])])
+        p.decls.append(mid)
+        qf = s.types["Query"]["fields"]
+        a_sels = [ob("hub", "Query", qf["hub"]["type"], [
+            cl(hub, [("q", ("var", "qq"))]),
+            ob("peer", T, peer_t, [cl(hub, [("q", sval())]), ob("peers", T, peers_t, [cl(hub)])], [("n", ("int", r.choice([2, -2])))])],
+            [("id", ("var", "hid"))])]
+        if r.random() < 0.7:
+            a_sels.append(ob("hubs", "Query", qf["hubs"]["type"], [
+                cl(hub), Sel("pointer", "hubPtr", T, ptr_t, None, [], [], [cl(hub, [("q", ("str", "under ptr"))])], ptr.ident())]))
+        ra = Decl("field", "Query", "ReuseA", [("hid", nn(named("ID")), None), ("qq", S, None)], ["component"] if r.random() < 0.5 else [], a_sels)
+        b_vars = [("w", S, None)]
+        b_sels = [ob("mid", "Query", qf["mid"]["type"], [cl(mid, [("k", sval())])])]
+        if "anyNamed" in qf:
+            b_sels.append(ob("anyNamed", "Query", qf["anyNamed"]["type"], [
+                ob("as" + T, "Named", named(T), [cl(hub, [("q", ("var", "w"))])])]))
+        else:
+            b_sels.append(ob("hubs", "Query", qf["hubs"]["type"], [cl(hub, [("q", ("var", "w"))])]))
+        if r.random() < 0.7:
+            b_vars.append(("nid", nn(named("ID")), None))
+            b_sels.append(ob("node", "Query", qf["node"]["type"], [ob("as" + T, "Node", named(T), [cl(hub)])], [("id", ("var", "nid"))]))
+        rb = Decl("field", "Query", "ReuseB", b_vars, [], b_sels)
+        p.decls += [ra, rb, Decl("entrypoint", "Query", "ReuseA"), Decl("entrypoint", "Query", "ReuseB", directives=["lazyLoad"] if r.random() < 0.15 else [])]
+        if "Mutation" in s.types:
+            low = T.lower().rstrip("_")
+            mf = s.types["Mutation"]["fields"].get("set_" + low)
+            pay = s.types.get(T + "Payload")
+            if mf and pay:
+                if "target" in pay["fields"]:
+                    inner = [ob("target", T + "Payload", pay["fields"]["target"]["type"], [cl(hub, [("q", ("str", "mut"))])])]
+                else:
+                    inner = [ob("item", T + "Payload", pay["fields"]["item"]["type"], [ob("as" + T, "Named", named(T), [cl(hub, [("q", ("str", "mut"))])])])]
+                md = Decl("field", "Mutation", "ReuseM", [("mid", nn(named("ID")), None)], [],
+                          [ob("set_" + low, "Mutation", mf["type"], inner + [sc("ok", T + "Payload", named("Boolean"))],
+                              [("id", ("var", "mid")), ("label", ("str", "new"))])])
+                p.decls += [md, Decl("entrypoint", "Mutation", "ReuseM")]
+        p.tags.add("reuse")
+
+    def gen_program_arg_hazard(self, n):
+        """C12: one field selected n times with adversarial argument lists (aliased k0..), plus crafted colliding pairs."""
+        r, s, p = self.rng, self.p.schema, self.p
+        variables = [("vs", named("String"), None), ("vn", named("Int"), None), ("vb", named("Boolean"), None),
+                     ("vc", named("Color"), None), ("vd", named("DateTime"), None), ("vf", named("FilterInput"), None),
+                     ("vi", named("ID"), None), ("vq", nn(named("String")), None)]
+        used = set()
+        strs = ARG_HAZARD_STRINGS
+
+        def value(an):
+            x = r.random()
+            if an in ("s", "t"):
+                if x < 0.12:
+                    used.add("vs")
+                    return ("var", "vs")
+                if x < 0.18:
+                    return ("null",)
+                if x < 0.3:
+                    return ("str", "".join(r.choice(ARG_HAZARD_ALPHABET) for _ in range(r.randint(0, 6))))
+                return ("str", r.choice(strs))
+            if an == "n":
+                if x < 0.15:
+                    used.add("vn")
+                    return ("var", "vn")
+                return r.choice([("int", v) for v in (0, 1, -1, 5, -5, 42, 10, -10, 2147483647, -2147483648)] + [("null",)])
+            if an == "b":
+                if x < 0.2:
+                    used.add("vb")
+                    return ("var", "vb")
+                return r.choice([("bool", True), ("bool", False), ("null",)])
+            if an == "i":
+                if x < 0.15:
+                    used.add("vi")
+                    return ("var", "vi")
+                return r.choice([("str", r.choice(strs)), ("int", r.choice([5, -5, 0, 9007199254740993]))])
+            if an == "x":
+                return ("int", r.choice([0, 3, -3, 9007199254740993, -9007199254740993, 4611686018427387904]))
+            if an == "c":
+                used.add("vc")
+                return ("var", "vc")
+            if an == "d":
+                used.add("vd")
+                return ("var", "vd")
+            if an == "f":
+                if x < 0.15:
+                    used.add("vf")
+                    return ("var", "vf")
+                ent = [("q", value("s") if r.random() < 0.8 else ("str", "q"))]
+                if ent[0][1] == ("null",):
+                    ent = [("q", ("str", ""))]
+                if ent[0][1] == ("var", "vs"):     # FilterInput.q is String!
+                    used.add("vq")
+                    ent = [("q", ("var", "vq"))]
+                if r.random() < 0.6:
+                    ent.append(("limit", value("n")))
+                if r.random() < 0.5:
+                    inner = [("n", value("n")), ("label", value("s"))]
+                    r.shuffle(inner)
+                    ent.append(("inner", ("obj", inner[:r.randint(0, 2)])))
+                if r.random() < 0.4:
+                    ent.append(("flag", value("b")))
+                r.shuffle(ent)
+                return ("obj", ent)
+            raise ValueError(an)
+
+        names = ["s", "t", "n", "b", "i", "x", "f", "c", "d"]      # `cs: [Color]` via a variable is rejected by the compiler
+        weights = [5, 3, 3, 2, 2, 1, 3, 1, 1]
+        sels, sub = [], []
+        # crafted pairs whose aliases coincide although the argument lists differ
+        crafted = [[("s", ("str", "a b"))], [("s", ("str", "a_b"))], [("s", ("str", "a")), ("t", ("str", "b"))],
+                   [("s", ("str", "a____t___s_b"))], [("t", ("str", "b")), ("s", ("str", "a"))],
+                   [("f", ("obj", [("q", ("str", "x")), ("limit", ("int", 1))]))], [("f", ("obj", [("limit", ("int", 1)), ("q", ("str", "x"))]))],
+                   [("f", ("obj", [("q", ("str", "x_limit__l_1"))]))], [("s", ("str", "a\\nb"))], [("s", ("str", "_"))], [("s", ("str", "__"))],
+                   [("n", ("int", -5))], [("s", ("var", "vs"))], [("s", ("str", "v_vs"))], [("i", ("str", "5"))], [("i", ("int", 5))]]
+        used.add("vs")
+        lists = [c for c in crafted if r.random() < 0.5]
+        while len(lists) < n:
+            k = r.choice([1, 1, 1, 2, 2, 3, 4])
+            chosen = []
+            for an in r.choices(names, weights, k=k):
+                if an not in [c[0] for c in chosen]:
+                    chosen.append((an, value(an)))
+            lists.append(chosen)
+        r.shuffle(lists)
+        T = s.order and base(s.types["Query"]["fields"]["probeObj"]["type"])
+        for i, args in enumerate(lists[:n]):
+            if i % 7 == 3:
+                sub.append(Sel("scalar", "probe", T, named("Int"), f"k{i}", args))
+            else:
+                sels.append(Sel("scalar", "probe", "Query", named("String"), f"k{i}", args))
+        if sub:
+            oargs = [("s", ("str", "a b")), ("n", ("int", -1))]
+            sels.append(Sel("object", "probeObj", "Query", named(T), "obj0", oargs, [], sub, T))
+        used = set()
+
+        def scan(v):
+            if v[0] == "var":
+                used.add(v[1])
+            elif v[0] == "obj":
+                for _a, b in v[1]:
+                    scan(b)
+        for _sel in sels + sub:
+            for _a, v in _sel.args:
+                scan(v)
+        d = Decl("field", "Query", "Probe", [v for v in variables if v[0] in used], [], sels)
+        p.decls.append(d)
+        p.decls.append(Decl("entrypoint", "Query", "Probe"))
+        p.arg_lists = lists[:n]
+        p.tags.add("arg-hazard")
 
     def finish_variables(self, d):
         """Well-formedness: every declared variable is used (generation only creates used ones)."""
@@ -622,6 +1041,18 @@ def generate(seed, profile="core", **opts):
         "text": dict(hazard_strings=True, hazard_descs=True),
         "names": dict(prefix_names=True, header_ws=True),
         "keys": dict(hazard_strings=True, aliases=True),
+        # --- runtime checks ---
+        # C10: everything the readers can reach: pointers, __link, lazily loaded loadables, exposed mutation fields,
+        # Mutation entrypoints, variable defaults
+        "rt": dict(pointers=True, link=True, lazy_loadable=True, exposed=True, mutation_entrypoints=True, var_defaults=True,
+                   max_decls=7),
+        "rt_text": dict(pointers=True, link=True, exposed=True, mutation_entrypoints=True, hazard_strings=True, force_ids=True),
+        # C25: the reuse workload on top of a small random program
+        "reuse": dict(reuse=True, pointers=True, link=True, lazy_loadable=True, exposed=True, mutation_entrypoints=True,
+                      force_ids=True, max_decls=4),
+        # C12: argument hazards
+        "args": dict(arg_hazard=40, max_decls=2, loadable=False, refetch=False),
+        "args_big": dict(arg_hazard=120, max_decls=2, loadable=False, refetch=False),
     }
     o = dict(presets.get(profile, {}))
     o.update(opts)
